@@ -2210,30 +2210,20 @@ def spacelike_to(v, force_oriented=False):
         raise GeometryError( "Cannot find isometry taking a"
         " spacelike vector to a non-spacelike vector.")
 
-    iso = utils.find_isometry(minkowski(dim), normed)
+    #complete the frame (t, v) rather than v alone, where t is the
+    #(always timelike) component of the first standard basis vector
+    #orthogonal to v. the complement of (t, v) is positive definite,
+    #so Gram-Schmidt on it cannot hit a null vector; completing v
+    #alone leaves a Lorentzian complement, in which the basis chosen
+    #by the SVD may contain (nearly) lightlike vectors.
+    form = minkowski(dim)
+    e0 = np.zeros_like(normed)
+    e0[..., 0] = 1
+    timelike_vec = e0 - utils.projection(e0, normed, form)
 
-    #find the index of the timelike basis vector
-    lengths = np.expand_dims(utils.normsq(iso, minkowski(dim)), axis=-1)
-    t_index = np.argmin(lengths, axis=-2)
-
-    #apply a permutation so the isometry actually preserves the
-    #form. we do the permutation in two steps because it could be
-    #either a 2-cycle or a 3-cycle.
-    p_iso = iso.copy()
-
-    #first swap timelike index with zero
-    indices = np.stack([np.zeros_like(t_index), t_index], axis=-2)
-    p_indices = np.stack([t_index, np.zeros_like(t_index)], axis=-2)
-
-    p_values = np.take_along_axis(iso, indices, axis=-2)
-    np.put_along_axis(p_iso, p_indices, p_values, axis=-2)
-
-    #then swap timelike index with one
-    indices = np.stack([np.ones_like(t_index), t_index], axis=-2)
-    p_indices = np.stack([t_index, np.ones_like(t_index)], axis=-2)
-
-    p_values = np.take_along_axis(p_iso, indices, axis=-2)
-    np.put_along_axis(p_iso, p_indices, p_values, axis=-2)
+    p_iso = utils.find_isometry(
+        form, np.stack([timelike_vec, normed], axis=-2)
+    )
 
     if force_oriented:
         p_iso = utils.make_orientation_preserving(p_iso)
